@@ -123,3 +123,16 @@ Example C05_example :
   length gk = length m /\ length vals = length m /\
   filter_by m (cumulative fops CSum true gk vals 2 (Some m)) = [fl_of_Z 1; fl_of_Z 4; fl_of_Z 4].
 Proof. repeat split; vm_compute; reflexivity. Qed.
+
+(* Tie B (pins): the functions this property's models transcribe read, statement by statement, as they did when the models
+   were written against them; Gen/SourcesGen.v is regenerated from /repo on every run (translator/pins.py). *)
+From GL Require Import Gen.SourcesGen Model.Sources Proofs.PinC05.
+Theorem C05_modelled_functions_are_the_source's :
+  gen_src_group_func_wrap = src_group_func_wrap /\
+  gen_src_apply_cumulative = src_apply_cumulative /\
+  gen_src_rolling_max_or_min_1d = src_rolling_max_or_min_1d /\
+  gen_src_rolling_shift_or_diff_1d = src_rolling_shift_or_diff_1d /\
+  gen_src_ema_grouped = src_ema_grouped /\
+  gen_src_ema_grouped_timed = src_ema_grouped_timed.
+Proof. exact (conj pin_group_func_wrap (conj pin_apply_cumulative (conj pin_rolling_max_or_min_1d (conj pin_rolling_shift_or_diff_1d (conj pin_ema_grouped pin_ema_grouped_timed))))). Qed.
+Print Assumptions C05_modelled_functions_are_the_source's.
